@@ -1,8 +1,8 @@
 SPECIFICATION Spec
 CONSTANTS
-  Names = {"INBOX", "Box", "Arch"}
+  Names = {"INBOX", "Box"}
   MaxMsgs = 3
-  MaxOps = 4
+  MaxOps = 5
   MaxSel = 3
   MaxCrashes = 0
   FlagSet = {"S", "T", "F"}
